@@ -361,6 +361,33 @@ theorem finding_overlapping_merges_normalised_at_save :
     SaveMerge.anchorOf [⟨2, 1, 3, 7⟩, ⟨2, 5, 5, 5⟩] 5 1 = (5, 1) ∧
     SaveMerge.anchorOf (SaveMerge.normalize [⟨2, 1, 3, 7⟩, ⟨2, 5, 5, 5⟩]) 5 1 = (2, 1) := by decide
 
+/-- **inv_step (MergeCell, round 5)**: on a stored list without overlapping ranges, `MergeCell` with a range
+(corners in any order) that overlaps none of the stored ones leaves a list without overlapping ranges
+(the invariant), which save + open returns unchanged (`normalize` is the identity on it, and so is every
+redirect); the step itself redirects exactly the cells of the new range, to its top-left cell, and no
+other cell. -/
+theorem inv_step_merge (l : List SaveMerge.Rect) (x1 y1 x2 y2 : Nat)
+    (h : l.Pairwise fun a b => SaveMerge.overlap b a = false)
+    (hn : ∀ o ∈ l, SaveMerge.overlap (SaveMerge.sortRect x1 y1 x2 y2) o = false) :
+    (SaveMerge.mergeCell l x1 y1 x2 y2).Pairwise (fun a b => SaveMerge.overlap b a = false) ∧
+    SaveMerge.normalize (SaveMerge.mergeCell l x1 y1 x2 y2) = SaveMerge.mergeCell l x1 y1 x2 y2 ∧
+    (∀ c r, SaveMerge.anchorOf (SaveMerge.normalize (SaveMerge.mergeCell l x1 y1 x2 y2)) c r =
+      SaveMerge.anchorOf (SaveMerge.mergeCell l x1 y1 x2 y2) c r) ∧
+    (∀ c r, SaveMerge.inside (SaveMerge.sortRect x1 y1 x2 y2) c r = false →
+      SaveMerge.anchorOf (SaveMerge.mergeCell l x1 y1 x2 y2) c r = SaveMerge.anchorOf l c r) ∧
+    (∀ c r, SaveMerge.inside (SaveMerge.sortRect x1 y1 x2 y2) c r = true →
+      SaveMerge.anchorOf (SaveMerge.mergeCell l x1 y1 x2 y2) c r = (min x1 x2, min y1 y2)) := by
+  have hp := SaveMerge.mergeCell_pairwise l x1 y1 x2 y2 h hn
+  have hs := SaveMerge.normalize_of_disjoint _ hp
+  refine ⟨hp, hs, fun c r => by rw [hs], fun c r hi => SaveMerge.anchorOf_append_miss l _ c r hi,
+    fun c r hi => SaveMerge.anchorOf_append_hit l _ c r hi hn⟩
+
+/-- non-vacuity of `inv_step_merge`: `MergeCell(C3:B1)` after `A1:A2`, `D4:E5`; `C2` is redirected to `B1` -/
+theorem inv_step_merge_witness :
+    SaveMerge.mergeCell [⟨1, 1, 1, 2⟩, ⟨4, 4, 5, 5⟩] 3 3 2 1 = [⟨1, 1, 1, 2⟩, ⟨4, 4, 5, 5⟩, ⟨2, 1, 3, 3⟩] ∧
+    (∀ o ∈ [(⟨1, 1, 1, 2⟩ : SaveMerge.Rect), ⟨4, 4, 5, 5⟩], SaveMerge.overlap (SaveMerge.sortRect 3 3 2 1) o = false) ∧
+    SaveMerge.anchorOf (SaveMerge.mergeCell [⟨1, 1, 1, 2⟩, ⟨4, 4, 5, 5⟩] 3 3 2 1) 3 2 = (2, 1) := by decide
+
 /-! ## `inv_step`: `SetCellStr`'s shared-string bookkeeping (table vs index map) -/
 
 /-- **inv_step (SetCellStr bookkeeping)**: if every binding of the index map points at an item with that
